@@ -171,6 +171,10 @@ def spice(rng, prog, ci, mfs):
                 {'op': 'pull', 'side': 'sideways'},
             )))
             out[-1]['badarg'] = True
+        elif r < 0.34:
+            # a counter created by incr/decr whose first value is too big for an INTEGER column: it is pickled, and with a small
+            # threshold it goes to a file
+            out.append({'op': rng.choice(('incr', 'decr')), 'k': 'huge-%d' % i, 'default': 2 ** 70 + i, 'delta': 1, 'retry': True})
         out.append(op)
     return out
 
